@@ -86,7 +86,7 @@ func TreeFromStream(
 			tap(node)
 		}
 		parent := stack[len(stack)-1]
-		if parent.Token != nil &&
+		for parent.Token != nil &&
 			parent.Kind == KindTypeName &&
 			len(parent.Subs) > 0 {
 			// filled type name node
